@@ -2,29 +2,38 @@
 (* C29 - transformed-kernel output never clobbers other kernels.              *)
 (*                                                                            *)
 (* Up to MaxRuns concurrent PSyclone runs execute CodedKern.rename_and_write  *)
-(* (src/psyclone/psyGen.py) against one kernel-output directory.  The model   *)
-(* follows the routine call by call: ONE ACTION PER FILE-SYSTEM CALL          *)
+(* (src/psyclone/psyGen.py, as of commit ea5fcc1) against one kernel-output   *)
+(* directory.  The model follows the routine call by call: ONE ACTION PER     *)
+(* FILE-SYSTEM CALL.                                                          *)
 (*                                                                            *)
-(*   Create : os.open(dir/<base>_<idx>_mod.f90, O_CREAT|O_WRONLY|O_EXCL)      *)
-(*              created            -> leave the loop holding the descriptor   *)
-(*              EEXIST, 'multiple' -> idx+1, try again                        *)
-(*              EEXIST, 'single'   -> leave the loop without descriptor       *)
-(*   Write  : os.write(fd, text)      (two half writes if SplitWrite)         *)
-(*   Close  : os.close(fd)                                                    *)
-(*   OpenR  : open(dir/<name>, "r")                                           *)
-(*   Read   : ffile.read() and the comparison with the rendered kernel        *)
-(*   CloseR : end of the `with` block                                         *)
+(* kernel_naming = 'multiple'                                                 *)
+(*   Create   : os.open(dir/<base>_<idx>_mod.f90, O_CREAT|O_WRONLY|O_EXCL)    *)
+(*                created -> leave the loop holding the descriptor            *)
+(*                EEXIST  -> idx+1, try again                                 *)
+(*   Write    : os.write(fd, text)      (two half writes if `split`)         *)
+(*   Close    : os.close(fd)                                                  *)
+(* kernel_naming = 'single'  (the name is always <base>_0_mod.f90)            *)
+(*   MkTemp   : tempfile.mkstemp(dir, prefix=<name>., suffix=.tmp)            *)
+(*   WriteTmp : os.write(tmp_fd, text)  (two half writes if `split`)         *)
+(*   CloseTmp : os.close(tmp_fd)                                              *)
+(*   Link     : os.link(tmp, dir/<name>)   ok (published) | EEXIST            *)
+(*   UnlinkTmp: os.unlink(tmp)            (the `finally` clause: BEFORE the   *)
+(*              read-back)   published -> done;  EEXIST -> read back          *)
+(*   OpenR    : open(dir/<name>, "r")                                         *)
+(*   Read     : ffile.read() and the comparison with the rendered kernel      *)
+(*   CloseR   : end of the `with` block                                       *)
 (*                                                                            *)
-(* _rename_psyir(new_suffix) and the rendering happen between the last Create *)
-(* and Write/OpenR; they touch only the run's own objects, commute with every *)
-(* action of every other run and are therefore folded into that Create        *)
-(* (`used` = the tag that the run's module, routine and PSy layer now carry). *)
+(* _rename_psyir(new_suffix) and the rendering touch only the run's own       *)
+(* objects, commute with every action of every other run and are folded into  *)
+(* the file-system action next to them (the last Create / MkTemp): `used` =   *)
+(* the tag that the run's module, routine and PSy layer carry from then on.   *)
 (*                                                                            *)
-(* File system:  tag -> [by, w, content, inner]                               *)
+(* Final kernel files:  tag -> [by, w, content, inner]                        *)
 (*   by      run whose step made the name appear (0 = present before the runs)*)
 (*   w       runs whose steps changed the content of the existing file        *)
 (*   content "empty" | "partial" | "v1" | "v2" | "other"  (kernel version)    *)
 (*   inner   tag carried by module/routine/metadata names inside (-1: none)   *)
+(* Temporary files:  run -> [content, inner]   ("none": the run has none)     *)
 EXTENDS Naturals, Integers, Sequences, FiniteSets, TLC, Json
 
 CONSTANTS MaxRuns,       \* run identities 1..MaxRuns
@@ -33,12 +42,14 @@ CONSTANTS MaxRuns,       \* run identities 1..MaxRuns
           Versions,      \* kernel content identities, e.g. {1, 2}
           PreChoices,    \* 0: empty directory; k: complete <base>_0_mod.f90 of
                          \*    version k left by an earlier (sequential) run
-          SplitWrite     \* TRUE: the environment performs the write in two halves
+          SplitChoices   \* subset of BOOLEAN; TRUE: the environment performs every
+                         \*    write in two halves (a reader could see half a file)
 
 Runs     == 1..MaxRuns
 Nm(i)    == ToString(i)
 VName(k) == "v" \o ToString(k)
 NoSeen   == [c |-> "none", inner |-> -1, by |-> -1, bypc |-> "none"]
+NoTmp    == [content |-> "none", inner |-> -1]
 
 \* ------------------------------------------------------------------ clauses
 \* All clauses are operators over explicit facts so that Trace_KernelOutput
@@ -53,6 +64,7 @@ WrittenByOne(F)   == \A n \in DOMAIN F : F[n].w \subseteq {F[n].by}
 NamesInside(F)    == \A n \in DOMAIN F : FullC(F[n].content) => Nm(F[n].inner) = n
 \* the verdict of a read-back is never based on a file still being written
 NoPartialVerdict(S, R) == \A r \in R : S[r].c \notin {"empty", "partial"}
+AllComplete(F) == \A n \in DOMAIN F : FullC(F[n].content)
 
 \* --- 'multiple', once every run has finished
 MultipleAllWritten(rs, R) == \A r \in R : rs[r] = "ok"
@@ -61,7 +73,6 @@ PsyUsesOwn(F, vr, rs, us, R) ==
        /\ us[r] >= 0 /\ Nm(us[r]) \in DOMAIN F
        /\ LET f == F[Nm(us[r])] IN
           f.by = r /\ f.content = VName(vr[r]) /\ f.inner = us[r]
-AllComplete(F) == \A n \in DOMAIN F : FullC(F[n].content)
 
 \* --- 'single', once every run has finished
 SingleUsesSame(F, vr, rs, us, R) ==
@@ -80,11 +91,13 @@ SingleFailOnlyIfDifferent(F, vr, pr, rs, R) ==
        /\ CreatorVer(F[Nm(0)], vr, pr) # vr[r]
 
 \* ------------------------------------------------------------- state machine
-VARIABLES scheme, pre, ver,   \* the case: naming scheme, earlier file, version per run
-          fs,                 \* the shared directory
+VARIABLES scheme, pre, ver, split,   \* the case: naming scheme, earlier file,
+                                     \* version per run, split writes
+          fs,                 \* the shared directory: final kernel files
+          tmp,                \* the shared directory: temporary files (one per run)
           pc, idx, fd, used, seen, res,      \* per run
           lastOp              \* history: the file-system call just made
-vars == <<scheme, pre, ver, fs, pc, idx, fd, used, seen, res, lastOp>>
+vars == <<scheme, pre, ver, split, fs, tmp, pc, idx, fd, used, seen, res, lastOp>>
 
 Op(r, call, n, rc, cls) == [run |-> r, call |-> call, name |-> n, res |-> rc, cls |-> cls]
 Active == {r \in Runs : pc[r] # "off"}
@@ -92,8 +105,10 @@ Active == {r \in Runs : pc[r] # "off"}
 Init ==
   /\ scheme \in Schemes
   /\ pre \in PreChoices
+  /\ split \in SplitChoices
   /\ \E n \in RunCounts :
-       /\ pc = [r \in Runs |-> IF r <= n THEN "create" ELSE "off"]
+       /\ pc = [r \in Runs |-> IF r > n THEN "off"
+                               ELSE IF scheme = "single" THEN "mktemp" ELSE "create"]
        /\ res = [r \in Runs |-> IF r <= n THEN "run" ELSE "off"]
        \* runs are interchangeable: versions in non-decreasing order, first = 1
        /\ ver \in {v \in [Runs -> Versions] :
@@ -102,12 +117,14 @@ Init ==
                      /\ \A r \in 1..(n - 1) : v[r] <= v[r + 1] /\ v[r + 1] <= v[r] + 1}
   /\ fs = IF pre = 0 THEN <<>>
           ELSE (Nm(0) :> [by |-> 0, w |-> {}, content |-> VName(pre), inner |-> 0])
+  /\ tmp = [r \in Runs |-> NoTmp]
   /\ idx = [r \in Runs |-> 0]
   /\ fd = [r \in Runs |-> ""]
   /\ used = [r \in Runs |-> -1]
   /\ seen = [r \in Runs |-> NoSeen]
   /\ lastOp = Op(0, "init", "", "", "")
 
+\* ----------------------------------------------------------------- 'multiple'
 Create(r) ==
   /\ pc[r] = "create"
   /\ LET n == Nm(idx[r]) IN
@@ -118,26 +135,21 @@ Create(r) ==
           /\ pc' = [pc EXCEPT ![r] = "write"]
           /\ idx' = idx
           /\ lastOp' = Op(r, "creat", n, "ok", "")
-     ELSE IF scheme = "single"
-     THEN /\ used' = [used EXCEPT ![r] = idx[r]]        \* break: reuse the existing file
-          /\ pc' = [pc EXCEPT ![r] = "openr"]
-          /\ UNCHANGED <<fs, fd, idx>>
-          /\ lastOp' = Op(r, "creat", n, "EEXIST", "")
      ELSE /\ idx' = [idx EXCEPT ![r] = @ + 1]           \* continue with the next name
           /\ UNCHANGED <<fs, fd, used, pc>>
           /\ lastOp' = Op(r, "creat", n, "EEXIST", "")
-  /\ UNCHANGED <<scheme, pre, ver, seen, res>>
+  /\ UNCHANGED <<scheme, pre, ver, split, tmp, seen, res>>
 
 Write(r) ==
   /\ pc[r] \in {"write", "write2"}
-  /\ LET half == SplitWrite /\ pc[r] = "write" IN
+  /\ LET half == split /\ pc[r] = "write" IN
      /\ fs' = [fs EXCEPT ![fd[r]] =
                  [@ EXCEPT !.content = IF half THEN "partial" ELSE VName(ver[r]),
                            !.inner = IF half THEN -1 ELSE used[r],
                            !.w = @ \cup {r}]]
      /\ pc' = [pc EXCEPT ![r] = IF half THEN "write2" ELSE "close"]
      /\ lastOp' = Op(r, "write", fd[r], "ok", IF half THEN "partial" ELSE VName(ver[r]))
-  /\ UNCHANGED <<scheme, pre, ver, idx, fd, used, seen, res>>
+  /\ UNCHANGED <<scheme, pre, ver, split, tmp, idx, fd, used, seen, res>>
 
 Close(r) ==
   /\ pc[r] = "close"
@@ -145,13 +157,62 @@ Close(r) ==
   /\ res' = [res EXCEPT ![r] = "ok"]
   /\ fd' = [fd EXCEPT ![r] = ""]
   /\ lastOp' = Op(r, "close", fd[r], "ok", "")
-  /\ UNCHANGED <<scheme, pre, ver, fs, idx, used, seen>>
+  /\ UNCHANGED <<scheme, pre, ver, split, fs, tmp, idx, used, seen>>
+
+\* ------------------------------------------------------------------- 'single'
+MkTemp(r) ==
+  /\ pc[r] = "mktemp"
+  /\ tmp' = [tmp EXCEPT ![r] = [content |-> "empty", inner |-> -1]]
+  /\ used' = [used EXCEPT ![r] = 0]                     \* _rename_psyir("_0"), render
+  /\ fd' = [fd EXCEPT ![r] = "tmp"]
+  /\ pc' = [pc EXCEPT ![r] = "wtmp"]
+  /\ lastOp' = Op(r, "mkstemp", "tmp", "ok", "")
+  /\ UNCHANGED <<scheme, pre, ver, split, fs, idx, seen, res>>
+
+WriteTmp(r) ==
+  /\ pc[r] \in {"wtmp", "wtmp2"}
+  /\ LET half == split /\ pc[r] = "wtmp" IN
+     /\ tmp' = [tmp EXCEPT ![r] = IF half THEN [content |-> "partial", inner |-> -1]
+                                  ELSE [content |-> VName(ver[r]), inner |-> used[r]]]
+     /\ pc' = [pc EXCEPT ![r] = IF half THEN "wtmp2" ELSE "ctmp"]
+     /\ lastOp' = Op(r, "write", "tmp", "ok", IF half THEN "partial" ELSE VName(ver[r]))
+  /\ UNCHANGED <<scheme, pre, ver, split, fs, idx, fd, used, seen, res>>
+
+CloseTmp(r) ==
+  /\ pc[r] = "ctmp"
+  /\ pc' = [pc EXCEPT ![r] = "link"]
+  /\ fd' = [fd EXCEPT ![r] = ""]
+  /\ lastOp' = Op(r, "close", "tmp", "ok", "")
+  /\ UNCHANGED <<scheme, pre, ver, split, fs, tmp, idx, used, seen, res>>
+
+\* os.link is atomic: the final name appears with the complete content of the
+\* temporary file, or the call fails because the name exists
+Link(r) ==
+  /\ pc[r] = "link"
+  /\ LET n == Nm(idx[r]) IN
+     IF n \notin DOMAIN fs
+     THEN /\ fs' = fs @@ (n :> [by |-> r, w |-> {}, content |-> tmp[r].content,
+                                 inner |-> tmp[r].inner])
+          /\ pc' = [pc EXCEPT ![r] = "unlinkp"]
+          /\ lastOp' = Op(r, "link", n, "ok", "")
+     ELSE /\ pc' = [pc EXCEPT ![r] = "unlinkx"]
+          /\ UNCHANGED fs
+          /\ lastOp' = Op(r, "link", n, "EEXIST", "")
+  /\ UNCHANGED <<scheme, pre, ver, split, tmp, idx, fd, used, seen, res>>
+
+UnlinkTmp(r) ==
+  /\ pc[r] \in {"unlinkp", "unlinkx"}
+  /\ tmp' = [tmp EXCEPT ![r] = NoTmp]
+  /\ pc' = [pc EXCEPT ![r] = IF pc[r] = "unlinkp" THEN "done" ELSE "openr"]
+  /\ res' = [res EXCEPT ![r] = IF pc[r] = "unlinkp" THEN "ok" ELSE @]
+  /\ lastOp' = Op(r, "unlink", "tmp", "ok", "")
+  /\ UNCHANGED <<scheme, pre, ver, split, fs, idx, fd, used, seen>>
 
 OpenR(r) ==
   /\ pc[r] = "openr"
   /\ pc' = [pc EXCEPT ![r] = "read"]
   /\ lastOp' = Op(r, "openr", Nm(idx[r]), "ok", "")
-  /\ UNCHANGED <<scheme, pre, ver, fs, idx, fd, used, seen, res>>
+  /\ UNCHANGED <<scheme, pre, ver, split, fs, tmp, idx, fd, used, seen, res>>
 
 Read(r) ==
   /\ pc[r] = "read"
@@ -163,15 +224,17 @@ Read(r) ==
                                   THEN "ok" ELSE "error"]
      /\ lastOp' = Op(r, "read", Nm(idx[r]), "ok", f.content)
   /\ pc' = [pc EXCEPT ![r] = "closer"]
-  /\ UNCHANGED <<scheme, pre, ver, fs, idx, fd, used>>
+  /\ UNCHANGED <<scheme, pre, ver, split, fs, tmp, idx, fd, used>>
 
 CloseR(r) ==
   /\ pc[r] = "closer"
   /\ pc' = [pc EXCEPT ![r] = "done"]
   /\ lastOp' = Op(r, "closer", Nm(idx[r]), "ok", "")
-  /\ UNCHANGED <<scheme, pre, ver, fs, idx, fd, used, seen, res>>
+  /\ UNCHANGED <<scheme, pre, ver, split, fs, tmp, idx, fd, used, seen, res>>
 
-RunStep(r) == Create(r) \/ Write(r) \/ Close(r) \/ OpenR(r) \/ Read(r) \/ CloseR(r)
+RunStep(r) == \/ Create(r) \/ Write(r) \/ Close(r)
+              \/ MkTemp(r) \/ WriteTmp(r) \/ CloseTmp(r) \/ Link(r) \/ UnlinkTmp(r)
+              \/ OpenR(r) \/ Read(r) \/ CloseR(r)
 Next == \E r \in Runs : RunStep(r)
 Spec == Init /\ [][Next]_vars
 
@@ -181,9 +244,10 @@ AllDone == \A r \in Runs : pc[r] \in {"done", "off"}
 TypeOK ==
   /\ scheme \in {"multiple", "single"}
   /\ \A r \in Runs : pc[r] \in {"off", "create", "write", "write2", "close",
-                                "openr", "read", "closer", "done"}
+                                "mktemp", "wtmp", "wtmp2", "ctmp", "link",
+                                "unlinkp", "unlinkx", "openr", "read", "closer", "done"}
   /\ \A r \in Runs : res[r] \in {"off", "run", "ok", "error"}
-  /\ \A r \in Runs : (fd[r] # "") => (fd[r] \in DOMAIN fs /\ fs[fd[r]].by = r)
+  /\ \A r \in Runs : (fd[r] \notin {"", "tmp"}) => (fd[r] \in DOMAIN fs /\ fs[fd[r]].by = r)
 
 InvWrittenByOne     == WrittenByOne(fs)
 InvNamesInside      == NamesInside(fs)
@@ -203,27 +267,42 @@ SingleShared ==
     /\ SingleOneFile(fs, res, used, Active)
     /\ SingleFailOnlyIfDifferent(fs, ver, pre, res, Active)
     /\ AllComplete(fs)
-SingleStep == scheme = "single" => (WrittenByOne(fs) /\ NamesInside(fs))
+\* 'single', at every moment: the final file is complete whenever it exists (so
+\* no reader can ever see it partially written) and nobody rewrites it
+SingleStep == scheme = "single" =>
+                 (WrittenByOne(fs) /\ NamesInside(fs) /\ AllComplete(fs))
+\* model-level hygiene (not a property clause): no temporary file is left behind
+TempsRemoved == AllDone => \A r \in Runs : tmp[r] = NoTmp
 
 \* every run terminates (no run waits for another one)
 NoStuck == ~AllDone => \E r \in Runs : ENABLED RunStep(r)
 
 \* ------------------------------------------- transition dump (binding A)
-\* Printed with TLC's native ToString (ToJson costs ~3 ms per record here): only
-\* tuples, sets, strings and integers, which the harness transliterates to JSON.
+\* Printed with TLC's native ToString: only tuples, sets, strings and integers,
+\* which the harness transliterates to JSON.
 MaxTag == MaxRuns + 1
 FsKey  == [t \in 1..(MaxTag + 1) |->
              IF Nm(t - 1) \in DOMAIN fs
              THEN LET f == fs[Nm(t - 1)] IN <<f.by, f.w, f.content, f.inner>>
              ELSE <<>>]
-Abs  == <<scheme, pre, ver, FsKey, pc, idx, used, res, [r \in Runs |-> seen[r].c]>>
-View == <<scheme, pre, ver, fs, pc, idx, fd, used, seen, res>>
+TmpKey == [r \in Runs |-> <<tmp[r].content, tmp[r].inner>>]
+Abs  == <<scheme, pre, ver, FsKey, pc, idx, used, res, [r \in Runs |-> seen[r].c], TmpKey, split>>
+View == <<scheme, pre, ver, split, fs, tmp, pc, idx, fd, used, seen, res>>
 ViolatedClauses ==
    (IF ~MultipleFresh THEN {"MultipleFresh"} ELSE {}) \cup
    (IF ~SingleShared THEN {"SingleShared"} ELSE {}) \cup
    (IF ~SingleStep THEN {"SingleStep"} ELSE {}) \cup
    (IF ~InvNoPartialVerdict THEN {"NoPartialVerdict"} ELSE {})
 OpKey(o) == <<o.run, o.call, o.name, o.res, o.cls>>
+\* Which cases have their transitions printed (all cases are always CHECKED).
+\* The quick configuration overrides DumpWanted <- DumpQuick: every case of one or
+\* two runs with atomic writes, the two-run split-write cases that start from an
+\* empty directory, and the three-run cases with versions <<1, 1, 2>>.
+DumpWanted == TRUE
+DumpQuick  == LET n == Cardinality(Active) IN
+              \/ n <= 2 /\ (~split \/ (n = 2 /\ pre = 0))
+              \/ n = 3 /\ ~split /\ ver = <<1, 1, 2>>
 DumpTransition ==
-   PrintT("EDGE " \o ToString(<<Abs, OpKey(lastOp'), Abs', ViolatedClauses'>>))
+   DumpWanted =>
+      PrintT("EDGE " \o ToString(<<Abs, OpKey(lastOp'), Abs', ViolatedClauses'>>))
 ===============================================================================
